@@ -7,15 +7,19 @@
    (every record carries every field). This module replays the log with Cors.tla's own operators:
      TrApp   folds the logged calls with Enabled / Apply / TargetSid (a call that the builder machine does not
              allow at that point makes the whole app record inexplicable);
-     TrReq   compares the observation with Respond (the transcription of the dispatch) AND with Expected (the
-             documented intent computed from the call history).
-   Records that disagree are collected in `bad`; AllAgree fails at the end of the log and prints them. *)
+     TrReq   level 1: compares the observation (status, raw Access-Control-* lines, handler identity) with Respond
+             (the transcription of the dispatch) AND with Expected (the documented intent from the call history);
+             level 2, only when level 1 disagrees: judges the observed token sets against the statement alone
+             (Cors!Acceptable, with its named leniencies). Accepted there = `drift` (the code no longer behaves as
+             the code model says, but still carries the matched route's CORS headers); rejected = `bad`.
+   An app record whose calls the builder machine cannot fold is a harness problem (`unfold`), not a verdict.
+   AllAgree fails at the end of the log when `bad` or `unfold` is not empty and prints all three lists. *)
 EXTENDS Cors, Json, IOUtils
 
 Rec == ndJsonDeserialize(IOEnv.TRACE)
 
-VARIABLES l, bad, stats, okapp   \* stats: <<requests, with >=1 expected Access-Control header, OPTIONS hits, handler-set kept, misses>>
-tvars == <<l, bad, stats, okapp>>
+VARIABLES l, bad, drift, unfold, stats, okapp   \* stats: <<requests, with >=1 expected Access-Control header, OPTIONS hits, handler-set kept, misses>>
+tvars == <<l, bad, drift, unfold, stats, okapp>>
 
 Bare(c) == Call(c.op, c.pat, c.hk, c.hp, c.cors)
 RECURSIVE Fold(_, _, _, _)
@@ -31,40 +35,46 @@ Fold(a, cs, rest, ok) ==
                     Tail(rest), TRUE)
 
 TrInit == /\ app = NewApp /\ calls = <<>>
-          /\ l = 1 /\ bad = <<>> /\ stats = <<0, 0, 0, 0, 0>> /\ okapp = FALSE
-          /\ TLCSet(1, <<0>>) /\ TLCSet(2, <<>>)
+          /\ l = 1 /\ bad = <<>> /\ drift = <<>> /\ unfold = <<>> /\ stats = <<0, 0, 0, 0, 0>> /\ okapp = FALSE
+          /\ TLCSet(1, <<0>>) /\ TLCSet(2, <<>>) /\ TLCSet(3, <<>>) /\ TLCSet(4, <<>>)
 
 TrApp == /\ l <= Len(Rec) /\ Rec[l].t = "app"
          /\ LET f == Fold(NewApp, <<>>, Rec[l].calls, TRUE) IN
             /\ app' = f.a /\ calls' = f.cs /\ okapp' = f.ok
-            /\ bad' = IF f.ok \/ Len(bad) >= 20 THEN bad ELSE Append(bad, l)
-         /\ l' = l + 1 /\ UNCHANGED stats
+            /\ unfold' = IF f.ok \/ Len(unfold) >= 20 THEN unfold ELSE Append(unfold, l)
+         /\ l' = l + 1 /\ UNCHANGED <<stats, bad, drift>>
 
 TrReq == /\ l <= Len(Rec) /\ Rec[l].t = "req"
-         /\ LET rq == [m |-> Rec[l].m, host |-> Rec[l].host, path |-> Rec[l].path]
+         /\ LET rq == [m |-> Rec[l].m, host |-> Rec[l].host, path |-> Rec[l].path, origin |-> Rec[l].origin]
                 e == Expected(app, calls, rq)
                 g == GetHandler(app, rq)
-                agree == okapp /\ Rec[l].got = Respond(app, rq) /\ Rec[l].got = e
+                got == [status |-> Rec[l].got.status, ac |-> Rec[l].got.ac, at |-> Rec[l].got.at]
+                tok == [o |-> Range(Rec[l].got.tok.o), m |-> Range(Rec[l].got.tok.m), h |-> Range(Rec[l].got.tok.h)]
+                agree == got = Respond(app, rq) /\ got = e
+                accepted == agree \/ Acceptable(app, calls, rq, tok)
                 own == IF g.hit /\ rq.m # "OPTIONS" THEN AC(HandlerHeaders(RouteOf(app, g).hk)) ELSE NoAC
-            IN /\ bad' = IF agree \/ Len(bad) >= 20 THEN bad ELSE Append(bad, l)
+            IN /\ bad' = IF ~okapp \/ accepted \/ Len(bad) >= 20 THEN bad ELSE Append(bad, l)
+               /\ drift' = IF ~okapp \/ agree \/ ~accepted \/ Len(drift) >= 20 THEN drift ELSE Append(drift, l)
                /\ stats' = <<stats[1] + 1,
                              stats[2] + (IF e.ac # NoAC THEN 1 ELSE 0),
                              stats[3] + (IF g.hit /\ rq.m = "OPTIONS" THEN 1 ELSE 0),
                              stats[4] + (IF own.o # <<>> \/ own.m # <<>> \/ own.h # <<>> THEN 1 ELSE 0),
                              stats[5] + (IF g.hit THEN 0 ELSE 1)>>
-         /\ l' = l + 1 /\ UNCHANGED <<app, calls, okapp>>
+         /\ l' = l + 1 /\ UNCHANGED <<app, calls, okapp, unfold>>
 
 TrFinish == /\ l = Len(Rec) + 1
-            /\ TLCSet(1, bad) /\ TLCSet(2, stats)
-            /\ l' = l + 1 /\ UNCHANGED <<app, calls, bad, stats, okapp>>
+            /\ TLCSet(1, bad) /\ TLCSet(2, stats) /\ TLCSet(3, drift) /\ TLCSet(4, unfold)
+            /\ l' = l + 1 /\ UNCHANGED <<app, calls, bad, drift, unfold, stats, okapp>>
 
 TrNext == TrApp \/ TrReq \/ TrFinish
 TrSpec == TrInit /\ [][TrNext]_<<vars, tvars>>
 
-\* POSTCONDITION: the whole log was consumed and no record disagreed
+\* POSTCONDITION: the whole log was consumed, every app record could be folded and no record was rejected by
+\* the statement; records that only the code model rejects are printed as drift and do not fail it
+Lines(b) == [i \in 1..Len(b) |-> [line |-> b[i], rec |-> IF b[i] = 0 THEN Rec[1] ELSE Rec[b[i]]]]
 AllAgree == LET b == TLCGet(1) IN
-              \/ b = <<>> /\ PrintT(ToJson([stats |-> TLCGet(2)]))
-              \/ PrintT(ToJson([rejected |-> [i \in 1..Len(b) |->
-                     [line |-> b[i], rec |-> IF b[i] = 0 THEN Rec[1] ELSE Rec[b[i]]]]])) /\ FALSE
+              /\ PrintT(ToJson([drifted |-> Lines(TLCGet(3))]))
+              /\ \/ b = <<>> /\ TLCGet(4) = <<>> /\ PrintT(ToJson([stats |-> TLCGet(2)]))
+                 \/ PrintT(ToJson([rejected |-> Lines(b), unfoldable |-> Lines(TLCGet(4))])) /\ FALSE
 Consumed == l <= Len(Rec) + 2
 =============================================================================
